@@ -510,12 +510,14 @@ def template_programs(rng):
     # an array-element actual whose subscript holds a call, after actuals the callee uses as an address and as a subscript
     fill = proc(False, [('array', 'v'), ('val', 'i'), ('val', 'p')], [], ass(idx('v', var('i')), var('p')))
     addto = proc(True, [('array', 'v'), ('val', 'i'), ('val', 'p')], ['t'], seq([ass(var('t'), bi('+', idx('v', var('i')), var('p'))), ass(idx('v', var('i')), var('t')), ret(var('t'))]))
+    one = proc(True, [('val', 'p')], [], ret(num(1)))        # a call whose ARGUMENT is large and whose result is a valid subscript
     for k, (i_e, sub) in enumerate(((num(2), call('id', [num(1)])), (call('id', [num(1)]), call('id', [num(2)])), (num(1), call('cnt', [])),
-                                     (num(3), call('add', [num(1), num(1)])), (num(0), call('at', [var('b'), num(1)])))):
+                                     (num(3), call('add', [num(1), num(1)])), (num(0), call('at', [var('b'), num(1)])),
+                                     (num(0), call('one', [num(40)])), (num(2), call('one', [num(300)])), (call('one', [num(9)]), call('one', [num(150)])))):
         pre = init_stmts(rng) + [ass(idx('b', num(i)), num(i + 1)) for i in range(4)]
         out.append(('subcall:proc:%d' % k, std_program(seq(pre + [callst(call('fill', [var('a'), i_e, idx('b', sub)])), putc(idx('a', num(0))), putc(idx('a', num(1))),
-                                                            putc(idx('a', num(2))), exit_(idx('a', num(3)))]), {'fill': fill})))
-        out.append(('subcall:func:%d' % k, std_program(seq(pre + [putc(call('addto', [var('a'), i_e, idx('b', sub)])), putc(idx('a', num(1))), exit_(idx('a', num(2)))]), {'addto': addto})))
+                                                            putc(idx('a', num(2))), exit_(idx('a', num(3)))]), {'fill': fill, 'one': one})))
+        out.append(('subcall:func:%d' % k, std_program(seq(pre + [putc(call('addto', [var('a'), i_e, idx('b', sub)])), putc(idx('a', num(1))), exit_(idx('a', num(2)))]), {'addto': addto, 'one': one})))
     # pairs of procedure names one of which extends the other the way a generated label might (P / P_exit, P_end, P_body, ...)
     for suffix in ('_exit', '_entry', '_end', '_ret', '_body', '_frame', '_1', '0', '_'):
         for order in (0, 1):
